@@ -56,6 +56,48 @@ CLAIMS = {
                 "MatchesSane, validated at run time); character alignment of regex matches is inherited from the regex engine, not proved.",
         "technique": "Lean 4 proof over executable model + differential correspondence with the Rust implementation",
     },
+    "C02": {
+        "text": "Machine-checked Lean theorems (all vocabularies, pieces, fallback lists, buffer states): every final segment is accounted "
+                "for in order and the segments concatenate to the piece, for BPE, Unigram and WordPiece; without fallback the tokens spell the "
+                "piece exactly. Whole pipeline tied to src/lib.rs and the encoders by differential runs with a spelling verdict.",
+        "design_ref": "DESIGN.md §6 C02",
+        "note": "Trusted: Lean kernel + 3 standard axioms; harness generators; external regex/Unicode calls are oracle tables.",
+        "technique": "Lean 4 proof over executable model + differential correspondence with the Rust implementation",
+    },
+    "C06": {
+        "text": "Machine-checked Lean theorems: the three encoders follow the fallback chain specification for every fallback list "
+                "(head-first, Bytes continues with the tail on exactly the unencodable segment in byte order, Unknown only if defined, Skip, "
+                "error with the bytes, no partial result) and never panic. Tied to the encoders by differential runs on vocabularies with holes.",
+        "design_ref": "DESIGN.md §5, §6 C06",
+        "note": "Trusted: Lean kernel + 3 standard axioms; harness generators. Two genuine defects found and repaired (F5, F7).",
+        "technique": "Lean 4 proof over executable model + differential correspondence with the Rust implementation",
+    },
+    "C07": {
+        "text": "Machine-checked Lean theorems: the special-token scan is leftmost-first and aligned; both passes equal a cut-wise "
+                "specification in which each side of a special token is handled by itself; with encoding off no part carries a control id; "
+                "special parts are atomic; priority/unknown specials are recognized in both modes; only Pad inserts ids afterwards.",
+        "design_ref": "DESIGN.md §5, §6 C07",
+        "note": "Trusted: Lean kernel + 3 standard axioms; the literal-scan model of the special-token regexes and all other regexes are "
+                "tied by correspondence only.",
+        "technique": "Lean 4 proof over executable model + differential correspondence with the Rust implementation",
+    },
+    "C09": {
+        "text": "Machine-checked Lean theorems: for each encoder, encoding a list of parts = in-order concatenation of per-part results "
+                "that depend on the part's text alone; the pipeline is the composition parts -> encoder -> post-processing. Tied to the "
+                "code by differential runs incl. the property's own reference composition through the public API.",
+        "design_ref": "DESIGN.md §6 C09",
+        "note": "Trusted: Lean kernel + 3 standard axioms; harness generators; oracle tables for external calls.",
+        "technique": "Lean 4 proof over executable model + differential correspondence with the Rust implementation",
+    },
+    "C11": {
+        "text": "PARTIAL. Machine-checked Lean theorems for the built-in steps on every valid UTF-8 text (Strip, Extend incl. the unsafe "
+                "byte splice, Collapse, literal Replace, Prepend/Append, NMT with regenerated tables, conditionals, order, early return, "
+                "UTF-8 validity). Unicode normal forms, case folding and regex Replace are external libraries: tied by oracle tables, not proved.",
+        "design_ref": "DESIGN.md §6 C11",
+        "note": "Partial: equality of NFC/NFD/NFKC/NFKD and case folding with 'the standard ones' is outside the model (Unicode data is not "
+                "available to Lean offline); their calls are recorded and replayed, so order/conditions/validity are still covered.",
+        "technique": "Lean 4 proof over executable model + differential correspondence with the Rust implementation",
+    },
     "C12": {
         "text": "Machine-checked Lean theorems: load_roundtrip, load_total, load_layout, prefix_eq_keys_partial, prefix_sound, "
                 "transform_eq_occurrence, normalize_eq_spec (the property itself: leftmost-longest replacement, everything else unchanged), "
